@@ -169,6 +169,35 @@ def split_pinned_decls(txt):
     return {m.group(1): m.group(0).rstrip("\n") for m in re.finditer(r"^Inductive (src_\w+)[^\n]*\n(?:  \|[^\n]*\n?)+", txt, re.M)}
 
 
+ALL_SRC = {}
+
+
+def locate(repo, files, tr, owner, fn):
+    """an item that is not in its pinned file any more: if exactly one file under src/ defines it, take it from there"""
+    if not ALL_SRC.get(repo):
+        d = {}
+        for dp, _, fs in os.walk(os.path.join(repo, "src")):
+            for f in fs:
+                if f.endswith(".rs"):
+                    rel = os.path.relpath(os.path.join(dp, f), repo)
+                    if rel in files:
+                        d[rel] = files[rel]
+                        continue
+                    try:
+                        d[rel] = FileIndex(open(os.path.join(dp, f), errors="replace").read())
+                    except Exception:
+                        pass
+        ALL_SRC.clear()
+        ALL_SRC[repo] = d
+    hits = [(rel, ix) for rel, ix in ALL_SRC[repo].items() if (owner, fn) in ix.fns]
+    if len(hits) != 1:
+        return None, None
+    rel, ix = hits[0]
+    if rel not in tr.files:
+        tr.files[rel] = ix
+    return ix, ix.fns[(owner, fn)]
+
+
 def struct_sigs(files):
     """field names and types of the structs whose methods are translated: a changed representation of the private
     state makes its methods AND the helpers they call not comparable function by function"""
@@ -219,14 +248,23 @@ def generate(repo, root, use_pinned_for=(), pin=False):
             continue
         try:
             if f not in files:
-                raise Untranslatable(detail.get(f, "file missing"))
+                fix0, item0 = locate(repo, files, tr, owner, fn)
+                if item0 is None:
+                    raise Untranslatable(detail.get(f, "file missing"))
+                files[f] = fix0
             ix = files[f]
             if mode == ("fn",) and pdecl is None:
+                if tr.find_fn(ix, owner, fn)[1] is None:
+                    fix2, item2 = locate(repo, files, tr, owner, fn)
+                    if item2 is not None:
+                        ix = fix2
                 info = tr.get_fn(ix, owner, fn)
                 if info.coqname != coqname:
                     raise Untranslatable("name clash %s / %s" % (info.coqname, coqname))
             else:
                 fix, item = tr.find_fn(ix, owner, fn)
+                if item is None:
+                    fix, item = locate(repo, files, tr, owner, fn)
                 if item is None:
                     raise Untranslatable("function %s::%s not found" % (owner, fn))
                 info = tr.translate_fn(fix, item, coqname, mode, pdecl, opt, rdecl)
